@@ -5,8 +5,8 @@ import (
 	"encoding/json"
 	"fmt"
 	"go/ast"
-	"go/printer"
 	"go/parser"
+	"go/printer"
 	"go/token"
 	"reflect"
 	"sort"
@@ -22,8 +22,8 @@ import (
 // C12: restored ASTs carry a coherent position space.
 
 type c12Case struct {
-	Srcs   []string `json:"srcs"`   // files restored in sequence into one FileSet by one Restorer
-	Edit   string   `json:"edit"`   // "none" | "fill-block" | "fill-line" | "fill-newline" | "reverse" | "drop-first" | "dup-last"
+	Srcs   []string `json:"srcs"` // files restored in sequence into one FileSet by one Restorer
+	Edit   string   `json:"edit"` // "none" | "fill-block" | "fill-line" | "fill-newline" | "reverse" | "drop-first" | "dup-last"
 	Extras bool     `json:"extras"`
 	Shared bool     `json:"shared"` // FileSet already holds another file
 }
